@@ -244,6 +244,7 @@ func parseNumber[D []byte | string](d D, neg, sepallowed bool) (Decimal, error) 
 	sawdig := false
 	sawdot := false
 	sawexp := false
+	sawsep := false
 
 	l := len(d)
 	i := 0
@@ -254,6 +255,7 @@ func parseNumber[D []byte | string](d D, neg, sepallowed bool) (Decimal, error) 
 			cansep = true
 			cansgn = false
 			sawdig = true
+			sawsep = false
 
 			sig64 = sig64*10 + uint64(c-'0')
 
@@ -261,7 +263,7 @@ func parseNumber[D []byte | string](d D, neg, sepallowed bool) (Decimal, error) 
 				nfrac++
 			}
 		case c == '.':
-			if sawdot {
+			if sawdot || sawsep {
 				return Decimal{}, parseNumberSyntaxError{}
 			}
 
@@ -270,7 +272,7 @@ func parseNumber[D []byte | string](d D, neg, sepallowed bool) (Decimal, error) 
 			cansgn = false
 			sawdot = true
 		case c == 'E' || c == 'e':
-			if !sawdig {
+			if !sawdig || sawsep {
 				return Decimal{}, parseNumberSyntaxError{}
 			}
 
@@ -286,6 +288,7 @@ func parseNumber[D []byte | string](d D, neg, sepallowed bool) (Decimal, error) 
 			caneof = false
 			cansep = false
 			cansgn = false
+			sawsep = true
 		default:
 			return Decimal{}, parseNumberSyntaxError{}
 		}
@@ -302,6 +305,7 @@ func parseNumber[D []byte | string](d D, neg, sepallowed bool) (Decimal, error) 
 			cansep = true
 			cansgn = false
 			sawdig = true
+			sawsep = false
 
 			if sawexp {
 				if exp > exponentBias/10+1 {
@@ -346,7 +350,7 @@ func parseNumber[D []byte | string](d D, neg, sepallowed bool) (Decimal, error) 
 				}
 			}
 		case c == '.':
-			if sawdot || sawexp {
+			if sawdot || sawexp || sawsep {
 				return Decimal{}, parseNumberSyntaxError{}
 			}
 
@@ -355,7 +359,7 @@ func parseNumber[D []byte | string](d D, neg, sepallowed bool) (Decimal, error) 
 			cansgn = false
 			sawdot = true
 		case c == 'E' || c == 'e':
-			if !sawdig || sawexp {
+			if !sawdig || sawexp || sawsep {
 				return Decimal{}, parseNumberSyntaxError{}
 			}
 
@@ -380,6 +384,7 @@ func parseNumber[D []byte | string](d D, neg, sepallowed bool) (Decimal, error) 
 			caneof = false
 			cansep = false
 			cansgn = false
+			sawsep = true
 		case c == '+':
 			if !cansgn {
 				return Decimal{}, parseNumberSyntaxError{}
@@ -393,7 +398,7 @@ func parseNumber[D []byte | string](d D, neg, sepallowed bool) (Decimal, error) 
 		}
 	}
 
-	if !caneof {
+	if !caneof || !sawdig {
 		return Decimal{}, parseNumberSyntaxError{}
 	}
 
